@@ -9,7 +9,7 @@ META = dict(
     property="C43",
     level="exploration",
     technique="complete enumeration of short texts x smallest limits + Hypothesis texts/limits; wire lines recorded per transport write and decoded with a reference CTCP low-level dequoter",
-    level_text="IRCClient.msg / IRCClient.notice are called with generated text and an explicit length limit (minimum+1 .. 512) on a client attached to a recording transport; every write must be one line: at most `limit` octets including CRLF, no CR/LF inside, correct 'PRIVMSG|NOTICE target :' prefix; the message parts, low-level-dequoted by a reference reader and concatenated, must equal the text with whitespace removed. lowDequote(lowQuote(s)) and ctcpDequote(ctcpQuote(s)) (and their composition) must return s. All texts of <=4 (thorough: <=6) characters over a 6-character alphabet x the 3 smallest limits and all quoting inputs of <=4 characters over a 10-character alphabet are enumerated.",
+    level_text="IRCClient.msg / IRCClient.notice are called with generated text and an explicit length limit (minimum+1 .. 512) on a client attached to a recording transport; every write must be one line: at most `limit` octets including CRLF, no CR/LF inside, correct 'PRIVMSG|NOTICE target :' prefix; the message parts, low-level-dequoted by a reference reader and concatenated, must equal the text with whitespace removed. lowDequote(lowQuote(s)) and ctcpDequote(ctcpQuote(s)) (and their composition) must return s. All texts of <=4 (thorough: <=5) characters over a 7-character alphabet (incl. CR) x the 3 smallest limits and all quoting inputs of <=4 characters over a 10-character alphabet are enumerated.",
     level_note="'Whitespace' in the content oracle is every character with str.isspace() (the most lenient reading of 'non-whitespace characters'); the reference dequoter follows the CTCP specification's low-level quoting table and is trusted. length=None (the estimated safe maximum) is not exercised: the statement speaks about a given limit. Lone surrogates are outside the domain (not encodable).",
     design_ref="§5 C43",
     rule="split case = {kind:'split', how:'msg'|'notice', user, text, limit}; non-trivial = the text needs more than one line, or contains a multi-byte / low-quoted character or a line break. quote case = {kind:'quote', s}; non-trivial = s contains a character either quoting level touches. Distinct by the whole case.",
@@ -103,6 +103,10 @@ def _run_split(ctx, case):
     if any(len(w) > width for w in text.split()):
         ctx.count("split: word longer than a line")
     ctx.count("split: how=" + how)
+    if any(len(g) == width for g in text.split("\n")):
+        ctx.count("split: a newline-delimited segment fits the width exactly")
+        if any(len(g) == width and "\r" in g for g in text.split("\n")):
+            ctx.count("split: exactly fitting segment contains CR")
 
     # ---- each write is one well-formed line
     parts = []
@@ -120,6 +124,8 @@ def _run_split(ctx, case):
         if not u.startswith(fmt):
             ctx.violation("split-line-prefix", case, where + f" does not start with {fmt!r}")
         parts.append(ref_low_dequote(u[len(fmt):]))
+    if any(c in p_ for p_ in parts for c in "\r\n"):
+        ctx.count("split: CR/LF of the text sent inside a line (quoted)")
     # ---- content
     if _nows("".join(parts)) != _nows(text):
         ctx.violation("split-content-lost-or-reordered", case,
@@ -140,6 +146,12 @@ def _run_split(ctx, case):
             # have been sent, the limit cannot be met for this text
             ctx.count("split: limit unsatisfiable for a single character (not judged)")
             continue
+        # CR and LF are whitespace for the splitter (break points / dropped), so
+        # they normally never reach low-level quoting; if the excess is exactly
+        # what quoted CR/LF add, that is a different cause than the two below
+        k_crlf = sum(1 for c in parts[n] if c in "\r\n")
+        if k_crlf and n_oct - k_crlf <= limit:
+            ctx.violation("split-line-over-limit:cr-lf-sent-quoted-and-not-counted", case, detail)
         if n_oct > n_chr:
             ctx.violation("split-line-over-limit:counts-characters-not-octets", case, detail)
         ctx.violation("split-line-over-limit:low-quoting-expansion-not-counted", case, detail)
@@ -182,7 +194,7 @@ def run_case(ctx, case):
 
 # --------------------------------------------------------------------------
 
-SMALL_TEXT = ["a", " ", "\n", "\xe9", "-", "\x00"]
+SMALL_TEXT = ["a", " ", "\n", "\r", "\xe9", "-", "\x00"]
 QUOTE_ALPHA = ["\x10", "\\", "\x01", "\x00", "\n", "\r", "n", "r", "0", "a"]
 
 
@@ -242,6 +254,11 @@ def split_cases(draw):
     minimum = len(f"{'PRIVMSG' if how == 'msg' else 'NOTICE'} {user} :") + 2
     limit = draw(st.one_of(st.integers(minimum + 1, minimum + 12), st.integers(minimum + 1, 512),
                            st.sampled_from([80, 255, 510, 511, 512])))
+    segs = [g for g in text.split("\n") if g]
+    if segs and draw(st.integers(0, 3)) == 0:
+        # boundary class: some newline-delimited segment fits the width exactly (or nearly)
+        g = draw(st.sampled_from(segs))
+        limit = min(512, minimum + len(g) + draw(st.sampled_from([-1, 0, 0, 1, 2])))
     limit = max(limit, minimum + 1)
     return dict(kind="split", how=how, user=user, text=text, limit=limit)
 
@@ -257,7 +274,7 @@ def _hyp_shard(sub, i):
 
 
 def run(ctx):
-    maxlen = ctx.pick(4, 6)
+    maxlen = ctx.pick(4, 5)
     if ctx.thorough:
         ctx.shards(_split_shard, [(f, maxlen) for f in SMALL_TEXT])
     else:
